@@ -31,6 +31,9 @@ def main():
     for name in payload['scripts']:
         with open(os.path.join(root, name), 'w') as f:
             f.write(PROG % recfile)
+    # a file a program argument of the form @<file> would name (argparse's fromfile convention is not kernprof's)
+    with open(os.path.join(root, 'args.txt'), 'w') as f:
+        f.write('-v\n--outfile=stolen.prof\nalice\n')
     sys.path.insert(0, root)
     out = []
     import json
